@@ -96,6 +96,8 @@ def add_values(I, st, fr, e, a, b):
     if isinstance(a, VSeq) and isinstance(b, VSeq):
         I.pre_eq(st, fr, e, "array +", t_len(a.t), t_len(b.t))
         return VSeq(mk_add(st, a.t, b.t))
+    if isinstance(a, VUser) and isinstance(b, VUser):
+        return VUser(("binop", "+", a.key, b.key))      # element type's own addition: uninterpreted
     return VTop("add")
 
 
@@ -116,6 +118,8 @@ def sub_values(I, st, fr, e, a, b):
         I.oblige("PRE", fr, e, "array -", f"elementwise {show_term(b.t)} <= {show_term(a.t)} (no underflow)",
                  bool(r), r or "", detail="" if r else I.describe(st))
         return VSeq(("sub", a.t, b.t))
+    if isinstance(a, VUser) and isinstance(b, VUser):
+        return VUser(("binop", "-", a.key, b.key))      # element type's own subtraction: uninterpreted
     return VTop("sub")
 
 
@@ -310,7 +314,18 @@ def h_mul(I, st, fr, e, c, a):
 
 
 def h_default(I, st, fr, e, c, a):
+    tyd = I.facts.ty(e["ty"])
+    if tyd["k"] == "adt" and (tyd["path"].endswith("vec::Vec") or tyd["path"].endswith("VecArray")):
+        return [(st, VSeq(EMPTY), None)]
     return [(st, VUser("default"), None)]
+
+
+def h_div(I, st, fr, e, c, a):
+    return primitive_binop(I, st, fr, e, "/", a[0], a[1])
+
+
+def h_rem(I, st, fr, e, c, a):
+    return primitive_binop(I, st, fr, e, "%", a[0], a[1])
 
 
 def h_bound_cloned(I, st, fr, e, c, a):
@@ -356,6 +371,8 @@ SIMPLE = {
     "std::convert::AsRef::as_ref": h_identity,
     "std::convert::AsMut::as_mut": h_identity_ref,
     "std::default::Default::default": h_default,
+    "std::ops::Div::div": h_div,
+    "std::ops::Rem::rem": h_rem,
     "std::ops::Bound::<&T>::cloned": h_bound_cloned,
     "std::ops::RangeBounds::start_bound": h_start_bound,
     "std::ops::RangeBounds::end_bound": h_end_bound,
